@@ -11,7 +11,7 @@ BACKENDS = {
     'cvc5i': ['--cvc5', '--slice-formula'],   # PATH shim adds --solve-bv-as-int=sum
 }
 BASE_CHECKS = ['--no-standard-checks', '--bounds-check', '--pointer-check', '--div-by-zero-check',
-               '--undefined-shift-check', '--unwinding-assertions', '--drop-unused-functions']
+               '--undefined-shift-check', '--unwinding-assertions', '--drop-unused-functions', '--object-bits', '11']
 
 
 def goto_cc(out, files, defines=(), incs=()):
